@@ -326,7 +326,9 @@ static OrcOnce once_a = ORC_ONCE_INIT, once_b = ORC_ONCE_INIT;
 static int once_inits[2];
 static OrcCode *once_seen[MAXT][2];
 static int s2_ok[MAXT];
-static OrcCode *wrapper (OrcOnce * once, int which)
+/* noinline: inlined into body_once, clang folds "*(which ? &once_b : &once_a)" into loads of BOTH objects' value fields and a
+ * select, and ThreadSanitizer then reports the speculative load of the other object's value as a race with its initialiser */
+static __attribute__ ((noinline)) OrcCode *wrapper (OrcOnce * once, int which)
 {
   OrcCode *c;
   void *value;
